@@ -101,6 +101,7 @@ int main(int argc, char **argv) {
         double deadline = atof(arg_val(argc, argv, "--deadline-s", "0"));
         const char *cur = arg_val(argc, argv, "--current-file", nullptr);
         double t0 = now_ms();
+        if (deadline > 0) g_enumeration_deadline = t0 / 1e3 + deadline + 25;     // a crash / corruption enumeration still running 25 s past the budget stops early
         Profile pf = profile_for(prop, tier);
         for (uint64_t k = 0; k < count; ++k) {
             uint64_t idx = start + k * stride;
